@@ -219,13 +219,13 @@ CHECKS['C12'] = {
 
 CHECKS['C17'] = {
     'level': 'proof',
-    'units': ['unq'], 'kani': [],
-    'technique': 'contract-based deductive verification (Verus) of the verbatim Unquote::next / to_cow / is_quoted / new against a recursive specification of the unquoted text',
-    'level_text': 'Partial claim - the unquoting half of C17, as an unbounded proof: for every remaining input and every iterator state, Unquote::to_cow returns exactly the text the character-by-character iterator yields (spec function unq: text up to the closing quote, escapes resolved, unterminated strings and text after the closing quote included), to_cow never slices off a character boundary or out of range (its slicing preconditions are proof obligations), and next() terminates, yields unq element by element and stays exhausted (fused). The link and attribute scanners (LinkFormatParser / LinkAttributeParser: trim, find, split_at, pointer-difference slicing) are NOT covered.',
-    'level_note': 'Assumed: Chars::as_str / str::find(char) / starts_with(char) / len and the slicings &s[a..], &s[..b] over an axiomatic byte-offset model (offsets strictly increase with the character index, start at 0, the ASCII quote occupies one byte; slicing is defined exactly at character boundaries), Cow construction, to_string() == collecting the iterator (Display impl). Chars::next / str::chars use the specification shipped with vstd.',
-    'trusted': [T_VERUS, 'unit unq: assumed contracts of Chars::as_str, str::find(char), str::starts_with(char), str::len, &s[a..] / &s[..b] (byte-offset axioms boff), Cow::from, ToString for Unquote (== collecting the iterator); vstd specification of Chars::next and str::chars; derived PartialEq of UnquoteState read as structural'],
-    'not_covered': ['LinkFormatParser::next and LinkAttributeParser::next (totality, substrings in order, nothing after the first error): out of reach - str scanning by pointer difference, trim/find/split_at', 'Unquote::into_raw_str, PartialEq, Display (std fmt)'],
-    'explanation': 'unit unq',
+    'units': ['unq', 'lfp'], 'kani': [],
+    'technique': 'contract-based deductive verification (Verus) of the verbatim LinkFormatParser::next, LinkAttributeParser::next and Unquote::next / to_cow / is_quoted / new over an axiomatic byte-offset model of str',
+    'level_text': 'Unbounded proof, for every input string: (unit lfp) each call of LinkFormatParser::next and LinkAttributeParser::next terminates and cannot panic - every slicing is at a character boundary and in range, every pointer difference is taken between a string and one of its suffixes - consumes a non-empty prefix of the remaining input whenever that is non-empty (so iterating terminates), yields only substrings of the consumed prefix, link before attributes and key before value (hence in left-to-right order over the whole iteration), and leaves nothing to iterate after an error or after None; (unit unq) for every remaining input and iterator state Unquote::to_cow returns exactly the text the character-by-character iterator yields (unterminated quoted strings and text after the closing quote included) without slicing off a boundary, and Unquote::next terminates, yields that text element by element and stays exhausted.',
+    'level_note': 'Assumed (wrappers R34-R36, listed in trusted_base): the std string functions over an axiomatic byte-offset model (offsets strictly increase with the character index, start at 0, an ASCII character occupies one byte, suffix offsets shift; slicing / split_at are defined exactly at character boundaries; find returns the offset of the first occurrence; trim* return a sub-slice), Chars::as_str returns the remaining text and points into the string the iterator was made from, Chars::next per vstd plus an abstract decreasing measure, Cow construction, to_string() == collecting the iterator. Not covered: that the items are the RIGHT substrings for RFC 6690 (C17 does not ask for it), Display/PartialEq/into_raw_str.',
+    'trusted': [T_VERUS, 'units unq/lfp: assumed contracts of Chars::as_str, Chars::next (wrapper with termination measure), str::{is_empty,len,find(char),rfind(char),starts_with(char),trim,trim_matches,trim_end_matches,split_at}, &s[a..] / &s[..b], char::is_ascii_whitespace, pointer difference of a suffix (suffix_offset) over the byte-offset axioms boff of spec/strmodel.rs; Cow::from; ToString for Unquote (== collecting the iterator); vstd specification of str::chars; derived PartialEq of UnquoteState read as structural; `for c in iter.by_ref()` desugared (R35)'],
+    'not_covered': ['which substrings are yielded (RFC 6690 syntax) - not part of C17', 'Unquote::into_raw_str, PartialEq, Display (std fmt)'],
+    'explanation': 'units unq, lfp',
 }
 
 HOOK_COMMITS = ['7321ffc']
